@@ -304,7 +304,10 @@ impl BuiltInFunction {
                         if let ReturnValue::Value(Primitive::Bool(true)) = return_value {
                             let underlying = self.underlying.0.borrow();
                             let this_index: usize = (self.index.get() - 1).try_into()?;
-                            result.push(underlying[this_index].clone());
+                            let Some(kept) = underlying.get(this_index) else {
+                                bail!("the list changed while it was being filtered (index {this_index}, len {})", underlying.len())
+                            };
+                            result.push(kept.clone());
                         }
 
                         Ok(<i32 as TryInto<usize>>::try_into(self.index.get())?
